@@ -77,7 +77,9 @@ search_path_mapping = {}
 project_path_names = list(path_mapping.get('project').keys())
 
 # we override elements already set in sid_conf
-key_patterns = key_patterns.copy()
+# (a deep copy: the nested dictionaries updated below still belong to spil_sid_conf, which is read by spil when it is imported)
+import copy
+key_patterns = copy.deepcopy(key_patterns)
 
 key_patterns['__'].update({
         '{state}':   r'{state:(WORK|PUBLISH|\*|\>)}',
